@@ -458,3 +458,33 @@ def seeded_variants(prop):
                     out.append({"id": f"reversal:{commit}", "prop": prop, "edits": [("@patch", pf, True)],
                                 "expect": ["any"], "what": "re-introduces the repaired defect: " + info["subject"]})
     return out
+
+
+# ---------------------------------------------------------------------------------------------- C05 (term rules)
+SUBT = "logical_record/core/attribute/subtypes.py"
+V("C05-b1", "C05", (EITEM, "                set_value(attr, attr_value)\n", "                set_value(attr, attr_value, 'units')\n"),
+  "R05.3", "a plain keyword value lands in the units")
+V("C05-b2", "C05", (EITEM, "if key not in ('value', 'units'):", "if key not in ('value',):"), "R05.3", "units cannot be set through a dict")
+V("C05-b3", "C05", (EITEM, "**{k: v for k, v in kwargs.items() if v is not None}", "**{k: v for k, v in kwargs.items() if v}"),
+  "R05.3", "falsy keyword values are dropped by the constructor")
+V("C05-b4", "C05", (SUBT, "            return self._int_parser(value)\n\n        return self._float_parser(value)",
+                    "            return self._float_parser(value)\n\n        return self._int_parser(value)"), "R05.5",
+  "int / float parsers swapped")
+V("C05-b5", "C05", (SUBT, "        if not float(value).is_integer():\n            raise ValueError(f\"{value} cannot be represented as integer\")\n", ""),
+  "R05.5", "fractions truncated")
+V("C05-b6", "C05", (SUBT, "if val not in (0, 1):", "if val not in (0, 1, 2):"), "R05.5", "STATUS 2 accepted")
+V("C05-b7", "C05", (VE, "                    return v.value\n", "                    return v\n"), "R05.7", "enum member stored raw")
+V("C05-b8", "C05", (ATT, "self._value = self.convert_value(val)", "self.convert_value(val)\n        self._value = val"), "R05.7",
+  "raw value stored")
+V("C05-b9", "C05", (EITEM, "            if (item_value := getattr(self, item_name)) is not None:", "            if item_value := getattr(self, item_name):"),
+  "R05.3", "AttrSetup drops falsy parts")
+V("C05-b10", "C05", (CHAN, "                logger.debug(f\"Setting element limit of {self} to {dim}\")\n                self.element_limit.value = dim",
+                     "                logger.debug(f\"Setting element limit of {self} to {dim}\")\n            self.element_limit.value = dim"),
+  "R05.4", "a user-set element limit is overwritten from the data (the repaired defect)")
+V("C05-b11", "C05", (ORIGIN, "        if self.field_name.value is None:\n", "        if True:\n"), "R05.4", "WILDCAT overwrites the user's field name")
+V("C05-t1", "C05", (EITEM, "            attr = getattr(self, attr_name, None)\n            if not attr or not isinstance(attr, Attribute):",
+                    "            target = getattr(self, attr_name, None)\n            attr = target\n            if not isinstance(attr, Attribute) or not attr:"),
+  "silent", "temporaries / operand order")
+V("C05-t2", "C05", (SUBT, "        if self._int_only or self.representation_code in ReprCodeConverter.int_codes:\n            return self._int_parser(value)\n\n        return self._float_parser(value)",
+                    "        wants_int = self._int_only or self.representation_code in ReprCodeConverter.int_codes\n        parser = self._int_parser if wants_int else self._float_parser\n        return parser(value)"),
+  "silent", "parser chosen by a conditional expression")
